@@ -30,6 +30,9 @@ def conforming_cols(rng, ann=ANN):
     from maflib.validation import ValidationStringency as VS
     sch = impl.scheme_by_annotation(ann)
     rec = SC.typed_record(rng, rng.choice(["T1", "T2"]), rng.choice(["N1", None]), rng.choice(["1", "X"]), rng.choice([5, 50]), 60, ann=ann)
+    if rng.random() < 0.2:
+        # a free-text first field may start with the character that starts header lines: after the column line it is data
+        rec[sch.column_names()[0]].value = rng.choice(["#N/A", "#", "# not a gene", "#version gdc-1.0.0", "##x"])
     cols = []
     for k, name in enumerate(sch.column_names()):
         cols.append({"scheme": ann, "col": name, "key": name, "value": enc_val(rec[name].value), "index": k})
